@@ -18,7 +18,9 @@ EXPLANATION = (
     "Address::from_script(_, the UTXO set's network); R6 byte order of the height key (big endian XOR 0xff) agrees with "
     "Ord for Utxo (height descending, then outpoint, then value), the scan bounds are the extremes of that order and both "
     "inclusive; R7 every block up to the tip the answer names is applied to the address view, for every request kind; R8 both merged sources are filtered by the spent set, apply_block records every removed and added "
-    "outpoint. Does NOT decide: ledger equality itself (values, spent/unspent status over all histories), same-block "
+    "outpoint; R9 when an unstable block is cached, a spent output is looked up in the unstable cache, then among the same "
+    "block's earlier outputs, then in the stable set through the reverting accessor, and a miss is an error (the domain is "
+    "transaction-valid blocks). Does NOT decide: ledger equality itself (values, spent/unspent status over all histories), same-block "
     "spends, correctness of the merge of the two sorted sources.")
 RULES = {
     'R1': 'every range scan of UtxoSet.address_utxos filters decoded.address == queried address',
@@ -29,6 +31,7 @@ RULES = {
     'R6': 'encoder of Height vs Ord for Utxo; scan bounds',
     'R7': 'every admitted block is applied, coupled with the tip label (= C04.R2/R4)',
     'R8': 'spent filter on both sources; apply_block records removed and added outpoints',
+    'R9': 'lookup order of spent outputs when an unstable block is cached: unstable cache, same block, stable set (reverting accessor)',
 }
 ASSUMPTIONS = ['ic-stable-structures orders keys lexicographically by their bytes']
 US = 'ic_btc_canister::utxo_set::UtxoSet'
@@ -51,6 +54,7 @@ def run(ctx):
     r3_r4_r5(ctx)
     r6(ctx)
     r8(ctx)
+    r9(ctx)
     # R7: every admitted block of the walked chain is applied, together with the tip label the answer
     # names (shared with C04.R2/R4), for every request kind (no request-dependent shortcut)
     from sa.engine import SubCtx
@@ -124,6 +128,14 @@ def r2(ctx):
         n += 1
         ctx.touch(f)
         root = prog.root_of(f).short.rsplit('::', 1)[-1]
+        # value and outpoint provenance: the value is the tx out's own value, the outpoint the one looked up
+        v, o = dict(a[4]).get('value'), dict(a[4]).get('outpoint')
+        src = P.either(P.call(UB + 'GenericUnstableBlocks::get_tx_out', P.anything, P.anything), P.call(US + '::get_utxo', P.anything, P.anything))
+        okv = P.field('value', P.has(src))(v) and not (v[0] == 'bin')
+        lookups = [x for x in walk(v) if src(x)]
+        oko = bool(lookups) and (lookups[0][2][1] == o or P.has(lambda y: y == o)(lookups[0][2][1]))
+        ctx.check(okv and oko, 'R2', 'value-provenance:%s' % prog.root_of(f).short.rsplit('::', 1)[-1], f.where(bb),
+                  'the reported value is the looked-up tx out\'s value for the reported outpoint, unmodified', 'reported value = %s for outpoint %s' % (show(v)[:160], show(o)[:80]))
         from_cache = P.has(P.call(UB + 'GenericUnstableBlocks::get_tx_out'))(h) or P.has(P.call(UB + 'outpoints_cache::OutPointsCache::get_tx_out'))(h)
         key = 'height-provenance:%s' % root
         if from_cache:
@@ -350,3 +362,31 @@ def r8(ctx):
         srcs = [c for c in ap.calls() if not c.cleanup and c.matches(UB + 'GenericUnstableBlocks::get_removed_outpoints', UB + 'GenericUnstableBlocks::get_added_outpoints')]
         okk = all(P.param('block_hash')(e.operand(c.args[1])) and P.field('address', P.param('self'))(e.operand(c.args[2])) for c in srcs) and len(srcs) == 2
         ctx.check(okk, 'R8', 'apply_block-keys', ap, 'both accessors are keyed by the applied block hash and the tracked address', 'accessors keyed otherwise')
+
+
+def r9(ctx):
+    prog = ctx.prog
+    f = ctx.fn('R9', UB + 'outpoints_cache::insert_outpoints')
+    if not f:
+        return
+    OP = P.has(P.field('previous_output'))
+    c1 = P.call(UB + 'outpoints_cache::OutPointsCache::get_tx_out', P.param('cache'), OP)
+    c2 = P.call('alloc::collections::btree::map::BTreeMap::get', P.anything, OP)
+    c3 = P.call(US + '::get_utxo', P.param('utxos'), OP)
+    best = None
+    for l in range(len(f.locals)):
+        t = table(prog, f, l)
+        if len(t) == 3 and any(P.has(c1)(x[1]) for x in t) and any(P.has(c3)(x[1]) for x in t):
+            best = t
+    if best is None:
+        ctx.unknown('R9', 'lookup-order', f, 'the three-source lookup of a spent output was not found in insert_outpoints')
+        return
+    r1 = [x for x in best if P.has(P.downcast('Some', c1))(x[1]) and any(P.is_(c1, 'Some')(c) for c in x[2])]
+    r2 = [x for x in best if P.has(P.downcast('Some', c2))(x[1]) and any(P.is_(c1, 'None')(c) for c in x[2]) and any(P.is_(c2, 'Some')(c) for c in x[2])]
+    r3 = [x for x in best if P.has(c3)(x[1]) and any(P.is_(c1, 'None')(c) for c in x[2]) and any(P.is_(c2, 'None')(c) for c in x[2])]
+    ctx.check(len(r1) == 1 and len(r2) == 1 and len(r3) == 1, 'R9', 'lookup-order', f.where(best[0][0]),
+              'spent outputs: unstable cache first, else the same block\'s outputs, else UtxoSet::get_utxo', 'lookup table: %s' % describe_table(best))
+    # a miss in all three is an error return (?), not a default
+    miss = P.is_(P.has(P.call('core::option::Option::ok_or_else', c3, P.anything)), 'Break')
+    rows = table(prog, f)
+    ctx.check(any(any(miss(c) for c in r[2]) for r in rows if not P.agg(variant='Ok')(r[1])), 'R9', 'miss-is-error', f, 'an input found in none of the three sources makes insert_outpoints return an error', 'a missing input is not reported as an error')
